@@ -306,10 +306,11 @@ def ctxFlag (m : M) (token : Tok) : Option Arg :=
   if m.st = .unknown then none else
   match m.ctx with | some c => (assoc? token c.flags).bind (c.args[·]?) | none => none
 
-/-- `-nVALUE`: the two-character prefix is a value flag of the context and the third character is not `=` -/
+/-- `-nVALUE`: the two-character prefix is a value flag of the context (else, inside a task context,
+    of the core context) and the third character is not `=` -/
 def isGlued (m : M) (orig : Tok) : Bool :=
   !isLongFlag orig && orig.length > 2 && (orig.drop 2).head? ≠ some '=' &&
-    (match ctxFlag m (orig.take 2) with | some a => a.takesValue | none => false)
+    (match gluedFlag m (orig.take 2) with | some a => a.takesValue | none => false)
 
 /-- split of a short-flag token longer than two characters: glued value, or a block of boolean shorts -/
 def splitShort (m : M) (orig : Tok) : Tok × List Tok :=
